@@ -7,7 +7,7 @@
 #   M  the extracted Coq models: parseinit -> initadd list -> emitdata items / funcinit stores, InitSpec.image
 # C != S is a violation (the code contradicts the specification), M != C with C == S is model drift (broken),
 # S != G is a defect of the reference (broken).
-import os, re, sys, json, struct, hashlib, time
+import os, re, sys, json, struct, hashlib, time, base64, pickle
 import vlib
 from vlib import sh, txt, run_limited
 sys.path.insert(0, os.path.join(vlib.VERIF, 'gen'))
@@ -73,7 +73,7 @@ def literals(c):
         if t[0] != 'e':
             continue
         e = t[1]
-        if e.kind == 'str' and hasattr(e, 'sym'):
+        if e.kind == 'str' and e.w == 1:
             out[e.sym] = bytes(e.data)
         elif e.kind == 'clit':
             out[e.sym] = bytes(e.lit[1].data) if e.lit[0] == 'str' else e.lit[1]
@@ -595,8 +595,13 @@ def lit_map(cases):
 
 def canon_rel(c, rel, lmap):
     """reference relocations with literal ids replaced by the batch-wide id of their content"""
-    lits = literals(c)
-    return {off: ((lmap[lits[s]] if s >= 1000 else s), a) for off, (s, a) in rel.items()}
+    return dict(rel)          # literal ids are hashes of the content already
+
+
+def has_cover_leaves(c):
+    """a leaf write nested in an earlier, larger one (the known defect of funcinit applies)"""
+    ls = c.m.leaves
+    return any(p.pos <= l.pos and l.pos + l.width <= p.pos + p.width and p.width > l.width for k, l in enumerate(ls) for p in ls[:k])
 
 
 def has_cover(o):
@@ -658,6 +663,8 @@ class Runner:
         self.drift = []
         self.specbad = []
         self.quirks = []
+        self.qbe_oracle = None
+        self.qbe_bad = []
 
     # one file per batch: static cases -> data definitions, automatic cases -> functions
     def run_batch(self, cases, target, with_gcc):
@@ -698,6 +705,63 @@ class Runner:
                 self.check_case(c, o, datas, funcs, lm, gref.get(c.uid))
             except ILError as e:
                 ctx.broken('correspondence', 'il-evaluator', '%s\n%s' % (e, case_source(c)))
+        if rc == 0:
+            self.run_under_qbe(cases, target)
+
+    def run_under_qbe(self, cases, target):
+        """second opinion for the automatic objects: the whole IL (functions, a dumping `sink`, a `main` that calls
+        every function) executed by the shared IL semantics (ocaml/qbe/oracle run, coq/Model/Qbe.v)"""
+        if not self.qbe_oracle:
+            return
+        sel = [c for c in cases if c.auto and not any(lf.kind == 'addr' for lf in c.m.leaves)
+               and all(t.kind in ('int', 'bool', 'ptr') for _, _, _, t in c.params)]     # (by-value aggregates: QBE's :type layout is C08's business)
+        if not sel:
+            return
+        src = HEADER.replace('void sink(void *);\n', '') + 'void out_l(long);\nstatic unsigned long cursz;\n' \
+            'void sink(void *p) { unsigned char *q = p; unsigned long i; for (i = 0; i < cursz; i++) out_l(q[i]); }\n'
+        body = ''
+        for c in sel:
+            src += case_source(c).replace('void sink(void *);', '')
+            args = []
+            for decl, vid, val, t in c.params:
+                if t.kind in ('struct', 'union'):
+                    # (padded: QBE's own layout of the parameter's :type may be larger than the C object - C08's business)
+                    src += '_Alignas(16) static unsigned char pv%d_%d[%d] = { %s };\n' % (c.uid, vid, len(val) + 64, ', '.join(map(str, val)))
+                    args.append('*(%s *)pv%d_%d' % (t.decl(''), c.uid, vid))
+                elif t.kind == 'ptr':
+                    args.append('(%s)%dul' % (t.decl('').strip(), int.from_bytes(val, 'little')))
+                else:
+                    v = int.from_bytes(val, 'little', signed=bool(t.signed))
+                    args.append('(%s)%s' % (t.decl('').strip(), ('%dl' % v) if v > -(1 << 63) else '(-9223372036854775807l - 1)') if t.size < 8 or t.signed
+                                else '%dul' % v)
+            body += '\tcursz = %d; f%d(%s);\n' % (c.size, c.uid, ', '.join(args))
+        src += 'int main(void) {\n' + body + '\treturn 0;\n}\n'
+        rc, il, err = self.ctx.qbe(src, target=target)
+        if rc != 0:
+            self.stats['qbe_skipped'] = self.stats.get('qbe_skipped', 0) + len(sel)
+            return
+        p = os.path.join(self.ctx.tmp, 'run_%s_%d.ssa' % (target, sel[0].uid))
+        open(p, 'w').write(il)
+        rc, out, err = run_limited([self.qbe_oracle, 'run', p, '3000000', 'main'], timeout=120)
+        vals = []
+        status = None
+        for line in txt(out).split('\n'):
+            if line.startswith('out_l '):
+                vals.append(int(line[6:]) & 255)
+            elif line and not line.startswith('#'):
+                status = line
+        if status != 'status 0':
+            self.stats['qbe_skipped'] = self.stats.get('qbe_skipped', 0) + len(sel)
+            self.ctx.notes.append('Qbe.run did not finish a batch: %s' % status)
+            return
+        k = 0
+        for c in sel:
+            got = bytes(vals[k:k + c.size])
+            k += c.size
+            img, rel = G.image(c.m.leaves, c.size, c.opaque)
+            self.stats['qbe_run'] = self.stats.get('qbe_run', 0) + 1
+            if got != img and not (has_cover_leaves(c)):
+                self.qbe_bad.append(('Qbe.run of the emitted IL gives %s, the reference %s (%s)' % (got.hex(), img.hex(), status), c))
 
     def rejected(self, c, o, rc, err):
         """cproc rejects (or dies on) a valid initializer"""
@@ -944,7 +1008,7 @@ def with_tokens(c, toks):
     """the case with a shorter initializer (None when the reference rejects it)"""
     try:
         m = G.replay_tokens(c.root, toks, c.gen)
-    except (G.SpecError, IndexError):
+    except (G.SpecError, IndexError, AttributeError):
         return None
     if m.size() == 0:
         return None
@@ -1113,6 +1177,9 @@ def gen_batches(ctx, plan):
 
 
 def run(ctx):
+    for f in os.listdir(os.path.join(vlib.VERIF, 'evidence', 'replay')):       # replays of earlier runs of this check
+        if re.match(r'C07-(\d+\.json(\.what)?|broken\.json)$', f):
+            os.unlink(os.path.join(vlib.VERIF, 'evidence', 'replay', f))
     snap = ctx.snapshot()
     ok = ctx.coq(['Properties/Properties_C07.vo', 'Extract/Extract_c07.vo'])
     if ok:
@@ -1122,9 +1189,14 @@ def run(ctx):
         return ctx.finish(dict(evaluations=0, distinct_nontrivial=0, rule='nothing ran', samples=[]))
     thorough = ctx.tier == 'thorough'
     R = Runner(ctx, oracle)
+    try:
+        import c03
+        R.qbe_oracle = c03.build_oracle(ctx)
+    except Exception as ex:                      # the shared IL toolkit is optional for this check
+        ctx.notes.append('IL toolkit not available: %s' % ex)
     nreg = run_regress(ctx, R)
     nmal = run_malformed(ctx, oracle, R)
-    plan = [('x86_64-sysv', 28 if not thorough else 400, True), ('aarch64', 6 if not thorough else 80, False), ('riscv64', 6 if not thorough else 80, False)]
+    plan = [('x86_64-sysv', 200 if not thorough else 3000, True), ('aarch64', 40 if not thorough else 600, False), ('riscv64', 40 if not thorough else 600, False)]
     batches = gen_batches(ctx, plan)
     t0 = time.time()
     vlib.parallel_map(lambda b: R.run_batch(*b), batches)
@@ -1146,9 +1218,10 @@ def run(ctx):
                 w2 = [w for w, k, _ in R2.viol if k == key]
                 what, c = (w2[0] if w2 else what), small
         if not isinstance(c, str):
-            text = json.dumps(dict(what=what, key=key, target=c.target, auto=c.auto, source=HEADER + case_source(c)), indent=1)
+            text = json.dumps(dict(what=what, key=key, target=c.target, auto=c.auto, source=HEADER + case_source(c),
+                                   case=base64.b64encode(pickle.dumps(c)).decode()), indent=1)
         else:
-            text = json.dumps(dict(what=what, key=key, target='x86_64-sysv', auto=False, source=HEADER + c + '\n'), indent=1)
+            text = json.dumps(dict(what=what, key=key, target='x86_64-sysv', auto=False, source=HEADER + c + '\n', corpus=True), indent=1)
         ctx.violation('%s [%d cases]' % (what[:400], len(lst)), text, 'json', key)
     ctx.ob('cproc images = reference on %d static + %d automatic objects' % (R.stats['static'], R.stats['auto']), not ctx.unknown_violations())
     unknown_keys = {v['key'] for v in ctx.unknown_violations()}
@@ -1158,6 +1231,10 @@ def run(ctx):
             c = shrink(ctx, oracle, c, 'model-drift', 40)
         ctx.broken('correspondence', 'model-vs-cproc', what + '\n' + (c if isinstance(c, str) else case_source(c)))
     ctx.ob('extracted models (parseinit, emitdata, funcinit, InitSpec) = cproc on every case', not drift)
+    for what, c in R.qbe_bad[:5]:
+        ctx.broken('correspondence', 'qbe-run-vs-reference', what + '\n' + case_source(c))
+    if R.qbe_oracle:
+        ctx.ob('automatic objects dumped under Qbe.run (shared IL semantics) = reference on %d objects' % R.stats.get('qbe_run', 0), not R.qbe_bad)
     total = R.stats['static'] + R.stats['auto']
     cov = dict(evaluations=total + nreg + nmal, malformed=nmal, distinct_nontrivial=len(R.nontrivial),
                rule='distinct (target, source) cases whose initializer uses a designator, brace elision, a bit-field, a string, an address constant, '
@@ -1171,10 +1248,28 @@ def run(ctx):
 
 
 def replay(ctx, path):
+    """re-run one replay file: exit status 1 when the finding still reproduces"""
     d = json.load(open(path))
     snap = ctx.snapshot()
-    rc, il, err = ctx.qbe(d['source'], target=d.get('target', 'x86_64-sysv'))
+    if snap is None:
+        print('the working tree does not build')
+        return 1
     print(d['what'])
-    print('--- source\n' + d['source'])
+    print('--- source (target %s)\n%s' % (d.get('target'), d['source']))
+    rc, il, err = ctx.qbe(d['source'], target=d.get('target', 'x86_64-sysv'))
     print('--- cproc-qbe rc=%d\n%s%s' % (rc, il[-3000:], err[-1000:]))
-    return 1
+    ok = ctx.coq(['Extract/Extract_c07.vo'])
+    oracle = ctx.oracle('c07') if ok else None
+    R = Runner(ctx, oracle)
+    if d.get('corpus') or 'case' not in d:
+        run_regress(ctx, R)
+        hits = [(w, k) for w, k, c in R.viol if k == d.get('key') or (isinstance(c, str) and c.strip() in d['source'])]
+    else:
+        c = pickle.loads(base64.b64decode(d['case']))
+        R.run_batch([c], c.target, c.target == 'x86_64-sysv' and not c.auto)
+        hits = [(w, k) for w, k, _ in R.viol] + [(w, 'model-drift') for w, _ in R.drift] + [(w, 'reference-vs-gcc') for w, _ in R.specbad]
+    for w, k in hits:
+        print('STILL FAILS [%s]: %s' % (k, w[:600]))
+    if not hits:
+        print('does not reproduce any more')
+    return 1 if hits else 0
